@@ -224,6 +224,16 @@ func (c *OracleC12) AfterTxn(w *ledger.World, bc *ledger.BlockCtx, o *ledger.Out
 		if sum > 0 {
 			w.Tr.Probe("challenge_pool_nonzero")
 		}
+		if prev != nil {
+			if pb, ok := prev.CP[id]; ok && pb != bal {
+				// which operations really moved the pool (and were checked)
+				if bal > pb {
+					w.Tr.Probe("pool_grew/" + fn)
+				} else {
+					w.Tr.Probe("pool_shrank/" + fn)
+				}
+			}
+		}
 	}
 	// after close: the pool record is gone
 	for _, id := range sortedKeys(cur.CP) {
@@ -402,12 +412,20 @@ func (c *OracleC14) AfterTxn(w *ledger.World, bc *ledger.BlockCtx, o *ledger.Out
 			got = after - before
 		}
 		credited += got
+		if pre.Enterprise {
+			// enterprise allocations pay the blobbers for the used time at close (no
+			// challenge pool); the statement's bound speaks of challenge rewards only
+			continue
+		}
 		if got > ba.Integral+charge {
 			w.Tr.Violate(&sim.Violation{Prop: "C14", Oracle: "blobber-pay", Sig: "C14/blobber-paid-more-than-earned-plus-charge/" + fn,
 				Detail: fmt.Sprintf("blobber %s credited %d on close, outstanding challenge value %d, configured cancellation charge %d", short(ba.BlobberID), got, ba.Integral, charge)})
 		}
 	}
-	if credited > cpPre+charge {
+	if pre.Enterprise {
+		w.Tr.Probe("enterprise_close_checked")
+	}
+	if credited > cpPre+charge && !pre.Enterprise {
 		w.Tr.Violate(&sim.Violation{Prop: "C14", Oracle: "blobber-pay", Sig: "C14/blobbers-paid-more-than-pool-plus-charge/" + fn,
 			Detail: fmt.Sprintf("blobbers credited %d on close, challenge pool %d, configured cancellation charge %d", credited, cpPre, charge)})
 	}
